@@ -188,6 +188,16 @@ fn vaults(out: &mut Out) {
             out.case("fresh", &format!("{}", 10 + cw20 as u8), &[(d0.dep as u8).to_string(), (d0.wd as u8).to_string(), (d0.fl as u8).to_string(), if c_direct == 0 || c_factory == 0 { "0".into() } else { "3".into() }],
                      json!({"kind": "fresh vault + unauthorized switch update", "asset_cw20": cw20}));
         }
+        // ... whatever fee schedule the vault is created with (a zero share of any of the three fees included)
+        for f in [(0u128, 0u128, 0u128), (DEC / 100, 0, 0), (0, DEC / 200, 0), (0, 0, DEC / 1000), (DEC / 100, 0, DEC / 1000), (DEC - 3, 1, 1)] {
+            if let Ok(w) = wv::deploy(cw20, f, funds) {
+                let d0 = w.dump();
+                out.monitor_evals += 1;
+                if !(d0.dep && d0.wd && d0.fl) {
+                    out.monitor_fail("C17", "a fresh vault does not start with everything enabled", json!({"kind": "fresh vault", "asset_cw20": cw20, "fees_protocol_flash_burn": [f.0.to_string(), f.1.to_string(), f.2.to_string()]}));
+                }
+            }
+        }
         for funded in [false, true] {
             for fl in 0..8u32 {
                 for p in 0..V_PATHS.len() { vault_case(out, cw20, funded, fl, p); }
@@ -214,6 +224,16 @@ pub fn run(args: &Args) {
             (Some("vault_toggles"), Some(fl), Some(p), Some(funded)) => {
                 let cw20 = f.get("asset").and_then(|x| x.as_str()) == Some("cw20");
                 vault_case(&mut out, cw20, funded, fl as u32, p as usize);
+            }
+            (Some("fresh vault"), _, _, _) => {
+                let cw20 = f.get("asset_cw20").and_then(|x| x.as_bool()).unwrap_or(false);
+                let fs: Vec<u128> = f.get("fees_protocol_flash_burn").and_then(|x| x.as_array()).map(|a| a.iter().filter_map(|s| s.as_str()?.parse().ok()).collect()).unwrap_or_default();
+                if fs.len() == 3 {
+                    if let Ok(w) = wv::deploy(cw20, (fs[0], fs[1], fs[2]), [0, 9_000_000, 5_000_000, 3_000_000, 3_000_000]) {
+                        let d0 = w.dump();
+                        if !(d0.dep && d0.wd && d0.fl) { out.monitor_fail("C17", "a fresh vault does not start with everything enabled", f.clone()); }
+                    }
+                }
             }
             _ => { eprintln!("cannot parse replay file"); std::process::exit(2); }
         }
